@@ -750,9 +750,26 @@ func runOnce(c C09Case) (ev.Outcome, bool) {
 		}
 	}
 	defer stopMain()
-	if err := p.Stub.Start(context.Background()); err != nil {
-		f.expect(nil)
-		return fail("the adaptation did not accept the plugin's connection/registration: %v", err)
+	// Start returns once the plugin is configured - or with an error when the adaptation has
+	// already closed the connection: a synchronization that fails at once (a state that is
+	// refused without sending anything) can be over before the stub has seen the reply to
+	// its registration request. That is a legitimate face of "registration fails", so the
+	// verdict is taken from the runtime's side below and Start's error only recorded.
+	startErr := p.Stub.Start(context.Background())
+	if startErr != nil {
+		hist.Note = "stub.Start: " + startErr.Error()
+		select {
+		case <-s.done:
+		case <-time.After(10 * time.Second):
+			// the registration never reached synchronization (handshake trouble, registration
+			// timeouts under load): not what this property is about - not judged
+			f.expect(nil)
+			select {
+			case <-s.done: // it did after all, between the timer and expect(nil)
+			default:
+				return ev.Outcome{Excluded: "registration-did-not-reach-sync", Overloaded: true, Classes: classes}, false
+			}
+		}
 	}
 
 	// Registration outcome is known once the runtime's SyncFn has returned. synchronize()
@@ -785,6 +802,9 @@ func runOnce(c C09Case) (ev.Outcome, bool) {
 	switch {
 	case s.err == nil:
 		// registration succeeded: for every class this must be an exact delivery
+		if startErr != nil {
+			return fail("synchronization succeeded but the plugin's Start had failed: %v", startErr)
+		}
 		if calls != 1 {
 			return fail("synchronization succeeded but the plugin's handler was invoked %d times, not once", calls)
 		}
@@ -808,6 +828,9 @@ func runOnce(c C09Case) (ev.Outcome, bool) {
 			return fail("synchronization failed (%v) after the handler was invoked %d times", s.err, calls)
 		}
 		lenient = append(lenient, "c-refused")
+		if startErr != nil {
+			lenient = append(lenient, "c-refused-before-start-returned")
+		}
 	default:
 		// class (a)/(b): every message the sender can form at its floor fits, so the state
 		// can be transmitted and must be.
@@ -879,8 +902,10 @@ func runOnce(c C09Case) (ev.Outcome, bool) {
 	fs := &slot{pods: fpods, ctrs: fctrs, done: make(chan struct{})}
 	f.expect(fs)
 	if err := f.r.Connect(fp); err != nil {
+		// (re-executed: registration has its own timeouts, which a loaded machine can hit)
 		f.expect(nil)
-		return fail("after this synchronization the adaptation no longer accepts plugins: %v", err)
+		o, _ := fail("after this synchronization the adaptation no longer accepts plugins: %v", err)
+		return o, true
 	}
 	defer fp.Stub.Stop()
 	select {
